@@ -301,7 +301,9 @@ func (c *Connector) CreateMessage(_ context.Context, _ connector.IMAPStateWrite,
 
 	c.nextMsg++
 	id := imap.MessageID(fmt.Sprintf("%smsg%d", c.IDPrefix, c.nextMsg))
-	m := &Msg{ID: id, Literal: append([]byte{}, literal...), Flags: flags.Clone(), Date: date, Mailboxes: map[imap.MailboxID]bool{mboxID: true}}
+	// The remote has no notion of IMAP's per-mailbox \Deleted: it does not remember it (what it
+	// returns to gluon for this call is unchanged).
+	m := &Msg{ID: id, Literal: append([]byte{}, literal...), Flags: flags.Remove(imap.FlagDeleted), Date: date, Mailboxes: map[imap.MailboxID]bool{mboxID: true}}
 	c.Messages[id] = m
 
 	msg := imap.Message{ID: id, Flags: flags.Clone(), Date: date}
